@@ -16,7 +16,7 @@ RULE = (
     "programs: seeded buffer-family functions (memref.copy on the data-mover core, linalg.generic on the compute core, on 3 L3 arguments and "
     "3 L1 allocs; pre-existing barriers; scf.for nesting <= 3, scf.if; trip counts 0..3) compiled with insert-sync-barrier "
     "(variant A: cores skip ops of other cores by the dispatch rule re-stated in /verif; variant B: followed by dispatch-regions and executed "
-    "literally; variants C / D: allocations placed late and explicit deallocs, compiled with the static-allocation slice of the snaxc pipeline "
+    "literally; in a fifth of the cases tagged ops that every core executes read a local buffer; variants C / D: allocations placed late and explicit deallocs, compiled with the static-allocation slice of the snaxc pipeline "
     "insert-sync-barrier,memref-to-snax,canonicalize,snax-allocate{mode=minimalloc},insert-sync-barrier [,dispatch-regions] and executed on "
     "address-indexed L1 cells, so that two buffers the allocator put at one address are one piece of memory). N in 2..4 cores run the function on the simulated cluster under K seeded schedules with stalls and burst sizes 1/2/whole. "
     "Online: barrier-epoch race monitor on every memory cell, barrier deadlock. Afterwards: final contents of all buffers and the inputs every "
@@ -31,6 +31,9 @@ def gen_case(rng, tier):
     prof["views"] = rng.random() < 0.3  # dependencies through subviews of one allocation
     prof["streams"] = rng.random() < 0.15  # streaming regions: XDMA extension kernels on the DM core, snax_alu on the compute core
     prof["multiblock"] = rng.random() < 0.1  # several blocks (cf.cond_br): a barrier in one block does not cover the next
+    prof["op_reads"] = rng.choice([0, 0, 0, 0, 0.5])  # ops executed by every core that read a local buffer
+    if prof["op_reads"]:
+        prof["w_op"] = max(prof["w_op"], 2)
     variant = rng.choices(["A", "B", "C", "D"], [55, 20, 17, 8])[0]
     if variant in "CD":
         # static allocation: buffers allocated late / freed early so that the allocator hands the same address out twice
@@ -50,11 +53,16 @@ def args_for(machine: BufferMachine, env):
     return bufs + list(env["n"]) + list(env["b"])
 
 
-def oplog_key(log):
-    # what every DM / compute op read, in program order per op tag (cores removed)
+def oplog_key(log, all_cores=None):
+    # what every DM / compute op read, in program order per op tag (cores removed); ops that every core executes are kept
+    # per core - the sequential reference (all_cores given) stands for each of them
     out: dict = {}
     for core, tag, descr, read in log:
-        out.setdefault(tag, []).append((descr, read))
+        if isinstance(tag, tuple) and tag[0] == "global":
+            for c in range(all_cores) if all_cores is not None else [core]:
+                out.setdefault((tag, c), []).append((descr, read))
+        else:
+            out.setdefault(tag, []).append((descr, read))
     return out
 
 
@@ -72,7 +80,7 @@ def compare_static(ref: BufferMachine, sub: BufferMachine):
     bad = sorted(k for k in re_ if not same_or_undef(re_[k], se.get(k)))[:3]
     if bad:
         return "final-contents", f"cells {bad} of the function's arguments end as {[se.get(k) for k in bad]}, sequential reference {[re_[k] for k in bad]}"
-    ro, so = oplog_key(ref.oplog), oplog_key(sub.oplog)
+    ro, so = oplog_key(ref.oplog, sub.N), oplog_key(sub.oplog)
     if set(ro) != set(so) or any(len(ro[t]) != len(so[t]) for t in ro):
         return "provenance", "the set of executed copies / kernels differs from the sequential reference"
     for t in ro:
@@ -102,6 +110,7 @@ def execute(case):
         n = env["cores"]
         out["runs"] += 2
         ref = BufferMachine(P, 1, sequential=True)
+        ref.global_ops_read = True
         ref.taint = static
         ref.run_single("f", args_for(ref, env), Core(0))
         if case["variant"] in ("B", "D"):
@@ -115,6 +124,7 @@ def execute(case):
             sub = BufferMachine(compiled_b[n], n, sequential=False, roles="literal", burst=env["burst"])
         else:
             sub = BufferMachine(S, n, sequential=False, roles="rules", burst=env["burst"])
+        sub.global_ops_read = True
         tape = Tape(seed=env["sched"], replay=env.get("tape"), strict=False)
         cl = Cluster(sub, args_for(sub, env), tape, stall=env["stall"])
         out["zero_fault_runs"] += 1 + (not env["stall"] and not env["burst"])
@@ -136,7 +146,7 @@ def execute(case):
             bad = sorted(k for k in ref.mem if sub.mem.get(k) != ref.mem[k])[:3]
             out.update(status="violation", oracle="final-contents", message=f"cells {bad} end as {[sub.mem.get(k) for k in bad]}, sequential reference {[ref.mem[k] for k in bad]}", env_index=i)
             return out
-        if not static and oplog_key(sub.oplog) != oplog_key(ref.oplog):
+        if not static and oplog_key(sub.oplog) != oplog_key(ref.oplog, n):
             out.update(status="violation", oracle="provenance", message="some copy/kernel read other data than in the sequential reference", env_index=i)
             return out
         cores_touching = {c for c, *_ in sub.oplog}
@@ -149,6 +159,14 @@ def execute(case):
     out["nontrivial"] = bool(changed and multi)
     out["digest"] = digest_of(digests)
     return out
+
+
+def _kf_c13_1(case, outcome):
+    ops = (outcome.get("details") or {}).get("ops") or ()
+    return bool(outcome.get("oracle") == "race" and any(str(o).startswith("test.op#") for o in ops))
+
+
+TRIGGERS = {"reader_executed_by_every_core_is_not_a_dependency_source": _kf_c13_1}
 
 
 def shrink(case):
